@@ -21,7 +21,9 @@ NAMES = ["Oxidation", "Phospho", "Acetyl", "Carbamidomethyl", "Methyl", "Deamida
          "Cation:Na", "Oxidation|Hydroxylation", "R:Methionine sulfone", "RESID:AA0581", "G:G59626AS", "GNO:G59626AS",
          # vocabulary names with characters that mean something elsewhere in the notation: > , [ ] ( ) ' / + . &
          "Met->Hse", "U:Ala->Ser", "(2S,3R)-3-hydroxyasparagine", "Xlink:DTSSP[88]", "1'-phospho-L-histidine",
-         "DiART6plex116/119", "Myristoyl+Delta:H(-4)", "ICAT-G:2H(8)"]
+         "DiART6plex116/119", "Myristoyl+Delta:H(-4)", "ICAT-G:2H(8)",
+         # names that some number readers take for numbers
+         "nan", "inf", "Infinity", "1_000", "NaN"]
 FORMULAS = ["Formula:C2H4", "Formula:[13C2]H4", "Formula:C-1H2O", "Formula:[13C2][15N1]H6", "Formula:HPO3",
             "Formula:C12H20O2", "Formula:[2H3]C", "Formula:C6H10O5",
             "Formula:C2[13C1]C3H4", "Formula:[13C2]H3[13C1]O", "Formula:H2[15N]H"]     # an element written in two segments
@@ -61,7 +63,9 @@ def modval(rnd: random.Random, kinds="all") -> str:
     if kinds == "num" or (kinds == "all" and r < 0.35):
         if rnd.random() < 0.3:    # any decimal: 1..10 decimals, written as Python writes it (no exponent form)
             x = round(rnd.uniform(-300, 300) * rnd.choice([1, 1, 0.01, 0.0001]), rnd.randint(1, 10))
-            if "e" not in repr(x) and x != 0:
+            if rnd.random() < 0.15:      # below 1e-4 Python writes the float in exponent form ("1.5e-05")
+                x = round(rnd.uniform(-9e-5, 9e-5), rnd.randint(6, 10))
+            if x != 0 and "e+" not in repr(x):
                 return f"f:{x!r}"
         t, b = rnd.choice(NUMS)
         return f"{t}:{b}"
